@@ -1407,4 +1407,14 @@ theorem self_prefix_default_choice_full (p : LocPath) (hsup : simpleSupports p =
     simp only [pathTest, List.map_cons, List.map_nil, hc1, hc2, Option.getD_some] at e1 e2 ⊢
     rw [e1, e2]
 
+-- non-vacuity (self_prefix_irrelevant_attr / self_prefix_default_choice_full): `./descendant::a/b/@x`
+-- in relative mode on <r><a><b x="1"/></a></r>; the steps before the attribute step satisfy `StepsOk`
+example (ns : NsMap) (vs : Vars) : StepsOk ns vs (pathKmpAttr.take 2) :=
+  Frags.stepsOk_of_sstep ns vs _ (by
+    intro s hs; simp [pathKmpAttr] at hs
+    rcases hs with rfl | rfl <;> exact ⟨rfl, rfl, by simp⟩) (by simp [pathKmpAttr])
+example : runTest (pathTest [dot :: pathKmpAttr] false).1 [] [] (pathTest [dot :: pathKmpAttr] false).2
+    (Node.elem ⟨[], ['r']⟩ [] [Node.elem ⟨[], ['a']⟩ [] [Node.elem ⟨[], ['b']⟩ [(⟨[], ['x']⟩, ['1'])] []]]).flatten
+    = [.none, .none, .attrs [(⟨[], ['x']⟩, ['1'])], .none, .none, .none] := by decide +kernel
+
 end Genshi.Props.C17
